@@ -198,6 +198,13 @@ func init() {
 			// below the version it overwrites locally (clock skew between
 			// hosts); see the known finding nonmonotone-local-write
 			c.Work.NonMonotone = c.Native && t.Choose("cfg-nonmonotone", 12) == 11
+			if !c.Native && t.Choose("cfg-int-conv", 3) == 2 {
+				// shadow mode: one more application DBI with MDB_INTEGERKEY
+				// keys whose numeric order is not their byte order
+				c.Work.DBIs = append(c.Work.DBIs, "i4")
+				c.Work.DBIFlags = map[string]uint{"i4": 0x08}
+				c.Work.DBIKeys = map[string][]string{"i4": {le32(0), le32(1), le32(2), le32(256), le32(1 << 31), le32(0x01000000)}}
+			}
 			return c
 		},
 		Mons: func(f *Fleet) []Monitor { return []Monitor{&MonC01{}} },
